@@ -260,6 +260,7 @@ def run_case(case, tier):
         sc.max_drain = 64
         steps = list(PRE)
         if case["mode"] == "fuzz":
+            sc.max_drain = case["nframes"] + 64   # one frame per connection per round: the stream itself needs nframes rounds
             r = random.Random(case["seed"])
             steps += stage_steps("O", case["stage"], 30)
             pool_t = list(W.CONTROL_TYPES) * 3 + list(range(0, 100)) + [9999, 10000, -1, 2 ** 31 - 1, -2 ** 31, ALL, T, T]
